@@ -28,6 +28,7 @@ def main():
     ap.add_argument('--wt', default=None)
     ap.add_argument('--tests', default=None)
     ap.add_argument('-k', default=None)
+    ap.add_argument('--tag', default='', help='inserted into the destination name: seeded/<Cxx>-<tag><k>')
     args = ap.parse_args()
     prop = args.prop.upper()
     wt = args.wt or f'/tmp/wt-{prop}'
@@ -61,7 +62,7 @@ def main():
         if not ok:
             print(out0[-400:], out1[-400:], outt[-600:])
             continue
-        dst = os.path.join(VERIF, 'seeded', f'{prop}-{k}')
+        dst = os.path.join(VERIF, 'seeded', f'{prop}-{args.tag}{k}')
         os.makedirs(dst, exist_ok=True)
         shutil.copy(os.path.join(d, 'patch.diff'), dst)
         shutil.copy(os.path.join(d, 'demo.py'), dst)
